@@ -43,7 +43,9 @@ def run(tier):
     if neg.violated != "NoReserved":
         raise vlib.Infra("negative control: shipped variable table should violate NoReserved, got %s" % neg.violated)
     nparts = 40
-    parts = [vlib.seed() % nparts] if quick else list(range(0, nparts, 4))
+    # thorough: three of the 40 hash slices of the sampled product (measured: ten slices ran for more than an hour, the
+    # cost is OPA's compile time on shapes with 36+ quantified variables); the complete slices are in every part
+    parts = [vlib.seed() % nparts] if quick else [(vlib.seed() + k) % nparts for k in (0, 13, 26)]
     from concurrent.futures import ThreadPoolExecutor
     with ThreadPoolExecutor(max_workers=8) as ex:
         rs = list(ex.map(lambda p: vlib.run_tlc("shapes_p%02d" % p, "MCShapeCases", CFG % (p, nparts, "DesignTable"),
